@@ -21,6 +21,7 @@ RULE_FUNCS = {
     "R-errmsg": rules.r_errmsg,
     "R-underscore": rules.r_underscore,
     "R-ctorfn": rules.r_ctorfn,
+    "R-metrics": rules.r_metrics,
 }
 
 HEADER = """// GENERATED on every run by /verif/vx from the current working tree of /repo. Do not edit.
